@@ -127,7 +127,56 @@ fn op_key(op: &OutPoint) -> (H, u32) {
     (h(&op.tx_hash()), i)
 }
 
+/// Thorough tier: the per-session nodes (tx-pool services, RAM-backed databases) cannot be torn
+/// down inside a process, so the sessions are spread over child processes whose shard evidence
+/// the driver merges (`<ID>.part-<k>.json`).
+fn run_sharded(args: &Args) -> i32 {
+    let total = args.get_u64("sessions", 200);
+    let per = 40u64;
+    let shards = total.div_ceil(per);
+    let out = std::env::var("VERIF_OUT_DIR").map(std::path::PathBuf::from).unwrap_or_else(|_| vbase::verif_root().join("evidence"));
+    let exe = std::env::current_exe().expect("current exe");
+    let deadline = Instant::now() + Duration::from_secs(args.get_u64("budget_s", 1200));
+    let mut code = 0;
+    let mut ran = 0;
+    for k in 0..shards {
+        if Instant::now() > deadline {
+            break;
+        }
+        let dir = out.join(format!("pool-shard-{k}"));
+        let _ = std::fs::create_dir_all(&dir);
+        let status = std::process::Command::new(&exe)
+            .arg("pool")
+            .arg("--seed").arg((args.seed.wrapping_mul(1000) + k).to_string())
+            .arg("--tier").arg("thorough")
+            .arg("--props").arg(args.props.join(","))
+            .arg(format!("sessions={per}"))
+            .arg("shard=1")
+            .arg("budget_s=300")
+            .env("VERIF_OUT_DIR", &dir)
+            .status();
+        let c = match status {
+            Ok(st) => st.code().unwrap_or(2),
+            Err(_) => 2,
+        };
+        for id in ["C11", "C12", "C13"] {
+            let f = dir.join(format!("{id}.json"));
+            if f.exists() {
+                let _ = std::fs::rename(&f, out.join(format!("{id}.part-{k}.json")));
+            }
+        }
+        let _ = std::fs::remove_dir_all(&dir);
+        code = code.max(if c == 0 || c == 1 || c == 2 { c } else { 2 });
+        ran += 1;
+    }
+    eprintln!("[pool] {ran} shard process(es) of {per} sessions, worst exit code {code}");
+    code
+}
+
 pub fn run(args: &Args) -> i32 {
+    if args.tier == vbase::Tier::Thorough && args.get_u64("shard", 0) == 0 {
+        return run_sharded(args);
+    }
     hooks::install();
     hooks::install_panic_monitor();
     let mk = |id: &str, rule: &str| Report::new(id, "exploration", args, rule);
